@@ -14,6 +14,9 @@ import Blue.Proofs.LazyC
 import Blue.Proofs.AsIs
 import Blue.Proofs.SpecOrder
 import Blue.Proofs.SpecBounds
+import Blue.Proofs.ScanSpec
+import Blue.Proofs.SeekKey
+import Blue.Proofs.FamilyExists
 /-! # Property C11 — merging, concatenating, pruning, bounds and lazy cursors equal their definitions
 
 Property theorems only (the proofs live in `Blue/Proofs/{Merging*,Concat*,Bounds*,Pruning*,Lazy*,
@@ -37,8 +40,19 @@ the operations as they were are `Concat.nextOld`, `Concat.seekOld`, `Bounds.prev
 harness runs whichever variant the code under test exhibits on the three minimal inputs.
 
 Seek predicates: `seek(k)` is modelled as `Ref.seek pred` with `pred e = (key e ≥ k)`; the theorems
-ask of `pred` only that it switches once from false to true along the list in question, which
-"key ≥ k" does on any key-sorted list. -/
+ask of `pred` only that it switches once from false to true along the list in question
+(hypotheses `Mono` / `PredMono` / `MonoAlong` / `SeekPred`), which "key ≥ k" does on any key-sorted
+list: `seek_key_mono`, `seek_key_predMono`, `seek_key_monoAlong`, `seek_key_seekPred` below.
+`Concat.seek` models the binary search over the children by its *probes' answers* (the last entry of
+a child satisfies the predicate or not) — the probes' side effects on the children (the real code
+leaves each probed child at its last entry: `seek_to_last; prev`) are not in the model, so
+"operation by operation" is, for this one operation, "result by result"; the child finally chosen is
+re-sought, and every later operation repositions the child it moves to.
+
+The merging theorems are stated over an owner-tagged merged list `M` (`Family` / `FamilyW`); that
+every family of strictly sorted children HAS such an `M` is `exists_familyW` / `exists_family`, and
+`merging_refines_tables` / `merging_over_tables` are the refinement theorems with no `M` in the
+statement. -/
 namespace Blue.Props.C11
 open Blue.Cursor Blue.Cursor.Filtered
 
@@ -110,6 +124,67 @@ theorem merged_with_multiplicity {E : Type} {lt : E → E → Bool} {M : List (E
 theorem family_is_familyW {E : Type} {lt : E → E → Bool} {M : List (E × Nat)} {k : Nat}
     (st : StrictTotal lt) (fam : Family lt M k) : FamilyW lt M k := fam.toW st
 
+/-- **every family has its merged list**: for ANY strictly sorted tables (the same entry may be in
+    several) there is an owner-tagged `M` with `FamilyW lt M k` whose children are exactly the tables
+    — so the hypotheses `fam`, `hcs` of `merging_refines_dups` / `merging_over_dups` can always be met -/
+theorem exists_familyW {E : Type} {lt : E → E → Bool} (st : StrictTotal lt) (tables : List (List E))
+    (hs : ∀ t ∈ tables, t.Pairwise (fun a b => lt a b = true)) :
+    ∃ M, FamilyW lt M tables.length ∧ (List.range tables.length).map (childList M) = tables :=
+  Blue.Cursor.exists_familyW st tables hs
+
+/-- … and with `Family` when no entry is in two tables -/
+theorem exists_family {E : Type} {lt : E → E → Bool} (st : StrictTotal lt) (tables : List (List E))
+    (hs : ∀ t ∈ tables, t.Pairwise (fun a b => lt a b = true)) (hnd : tables.flatten.Nodup) :
+    ∃ M, Family lt M tables.length ∧ (List.range tables.length).map (childList M) = tables :=
+  Blue.Cursor.exists_family st tables hs hnd
+
+/-- **merging cursor = one cursor over the sorted union — no `M` in the statement.**  For ANY
+    strictly sorted children and every finite program (seek predicates upward closed), the merging
+    cursor shows what ONE reference cursor over `mergedList lt tables` shows; that list is a weakly
+    sorted permutation of the children's entries (next theorem). -/
+theorem merging_refines_tables {E : Type} {lt : E → E → Bool} (st : StrictTotal lt) (cs : List (Ref E))
+    (hs : ∀ c ∈ cs, c.xs.Pairwise (fun a b => lt a b = true))
+    (ops : List (Op E)) (hops : ∀ pred, Op.seek pred ∈ ops → Mono lt pred) :
+    (Merging.new lt cs).kv = (Ref.mk (mergedList lt (cs.map (·.xs))) 0).kv ∧
+    Merging.run lt (Merging.new lt cs) ops = Ref.run ⟨mergedList lt (cs.map (·.xs)), 0⟩ ops :=
+  Blue.Cursor.merging_refines_tables st cs hs ops hops
+
+/-- `mergedList` IS the sorted union with multiplicity: a permutation of the children's entries in
+    which no entry precedes a smaller one -/
+theorem mergedList_is_sorted_union {E : Type} {lt : E → E → Bool} (st : StrictTotal lt) (tables : List (List E)) :
+    (mergedList lt tables).Perm tables.flatten
+      ∧ (mergedList lt tables).Pairwise (fun a b => lt b a = false) :=
+  ⟨mergedList_perm lt tables, mergedList_sortedW st tables⟩
+
+/-- the same over any children that behave as strictly sorted tables -/
+theorem merging_over_tables {E : Type} {lt : E → E → Bool} (st : StrictTotal lt) {A : (E → Bool) → Prop}
+    (hA : ∀ p, A p → Mono lt p) {C : Cur E} (cs : List C.σ) (rs : List (Ref E))
+    (hs : ∀ r ∈ rs, r.xs.Pairwise (fun a b => lt a b = true))
+    (hbeh : cs.map (behA A C) = rs.map (behA A (RefCur E))) :
+    BehEq A (MergingC.cur C lt) (MergingC.new C lt cs) (RefCur E) ⟨mergedList lt (rs.map (·.xs)), 0⟩ :=
+  Blue.Cursor.merging_over_tables st hA cs rs hs hbeh
+
+/-! ## the seek predicate of `seek(key)` meets the four hypotheses -/
+
+/-- merging (`Mono`): "key ≥ k" is upward closed in the entry order (key ↑, timestamp ↓) -/
+theorem seek_key_mono {K : Type} [DecidableEq K] {klt : K → K → Bool} (st : StrictTotal klt) (k : K) :
+    Mono (Blue.Spec.vlt klt) (Blue.Spec.geKey klt k) := Blue.Spec.geKey_mono st k
+
+/-- concat (`PredMono`): … switches once along the concatenation of children in key order -/
+theorem seek_key_predMono {K : Type} [DecidableEq K] {klt : K → K → Bool} (st : StrictTotal klt) (k : K)
+    (L : List (List (Blue.Spec.Ver K))) (hm : Blue.Spec.KeysMono klt L.flatten) :
+    PredMono L (Blue.Spec.geKey klt k) := Blue.Spec.geKey_predMono st k L hm
+
+/-- bounds (`MonoAlong`): … switches once along any table whose keys never decrease -/
+theorem seek_key_monoAlong {K : Type} [DecidableEq K] {klt : K → K → Bool} (st : StrictTotal klt) (k : K)
+    (xs : List (Blue.Spec.Ver K)) (hm : Blue.Spec.KeysMono klt xs) :
+    MonoAlong xs (Blue.Spec.geKey klt k) := Blue.Spec.geKey_monoAlong st k xs hm
+
+/-- pruning (`SeekPred`): … depends on the key only and switches once -/
+theorem seek_key_seekPred {K : Type} [DecidableEq K] {klt : K → K → Bool} (st : StrictTotal klt) (k : K)
+    (t : Nat) (tomb : Blue.Spec.Ver K → Bool) (xs : List (Blue.Spec.Ver K)) (hm : Blue.Spec.KeysMono klt xs) :
+    SeekPred (Blue.Spec.pcfg t tomb) xs (Blue.Spec.geKey klt k) := Blue.Spec.geKey_seekPred st k t tomb xs hm
+
 /-! ## concatenation -/
 
 /-- **Concatenating cursor = one cursor over the concatenation**, for any non-empty vector of
@@ -139,13 +214,29 @@ theorem concat_over {E : Type} {A : (E → Bool) → Prop} {C : Cur E} (cs : Lis
     above-end `[hi, n)`; `bounds_hypothesis_of_sorted` shows every key-sorted table and every pair
     of bounds (all nine kinds, inverted and empty intervals included) satisfies it, and
     `bounds_window_is_interval` that the window is then exactly the entries whose key lies in the
-    interval.  `BRel` is the simulation relation; `BRel.before 0` is the state `new` leaves. -/
+    interval (`inRange`: explicit key comparisons, independent of the cursor model; bridge
+    `in_range_is_bounds_cursor_tests`).  `BRel` is the simulation relation; `BRel.before 0` is the
+    state `new` STARTS from (child at position 0, `BeforeStart`) — `new` then performs a
+    `seek_to_first`; the state it leaves is related to position 0 by `bounds_new_related`, and
+    `bounds_refines_new` is the theorem started there. -/
 theorem bounds_refines {E : Type} (cfg : BoundsCfg E) (xs : List E) {lo hi : Nat}
     (ok : BoundsOk cfg xs lo hi) (n : Nat) (hn : xs.length + 2 ≤ n)
     (ops : List (Op E)) (b : Bounds E) (pos : Nat) (h : BRel xs lo hi b pos)
     (hops : ∀ pred, Op.seek pred ∈ ops → MonoAlong xs pred) :
     Bounds.run cfg n b ops = Ref.run ⟨window xs lo hi, pos⟩ ops :=
   Blue.Cursor.bounds_refines cfg xs ok n hn ops b pos h hops
+
+/-- the state `BoundsCursor::new` leaves is related to window position 0 -/
+theorem bounds_new_related {E : Type} (cfg : BoundsCfg E) (xs : List E) {lo hi : Nat}
+    (ok : BoundsOk cfg xs lo hi) : BRel xs lo hi (Bounds.new cfg ⟨xs, 0⟩) 0 :=
+  Blue.Cursor.brel_new cfg xs ok
+
+/-- `bounds_refines` for the cursor as constructed by `BoundsCursor::new` -/
+theorem bounds_refines_new {E : Type} (cfg : BoundsCfg E) (xs : List E) {lo hi : Nat}
+    (ok : BoundsOk cfg xs lo hi) (n : Nat) (hn : xs.length + 2 ≤ n)
+    (ops : List (Op E)) (hops : ∀ pred, Op.seek pred ∈ ops → MonoAlong xs pred) :
+    Bounds.run cfg n (Bounds.new cfg ⟨xs, 0⟩) ops = Ref.run ⟨window xs lo hi, 0⟩ ops :=
+  Blue.Cursor.bounds_refines_new cfg xs ok n hn ops hops
 
 theorem bounds_subst {E : Type} (cfg : BoundsCfg E) (n : Nat) {A : (E → Bool) → Prop}
     (hs : A cfg.geStart) (he : A cfg.geEnd) {C D : Cur E} {c : C.σ} {d : D.σ}
@@ -178,6 +269,21 @@ theorem bounds_window_is_interval {K : Type} [DecidableEq K] {klt : K → K → 
         (xs.findIdx (Blue.Spec.bcfg klt sb eb).aboveEnd)
       = xs.filter (Blue.Spec.inRange klt sb eb) :=
   Blue.Spec.window_eq_range st sb eb xs hm
+
+/-- the interval predicate is a specification by explicit key comparisons (`start ≤ key ≤ end`
+    with each bound's strictness; `a ≤ b` is `klt b a = false`) … -/
+theorem in_range_is_the_interval {K : Type} (klt : K → K → Bool) (sb eb : Blue.Spec.Bound K) (e : Blue.Spec.Ver K) :
+    Blue.Spec.inRange klt sb eb e = true ↔
+      (match sb with | .unbounded => True | .included k => klt e.1 k = false | .excluded k => klt k e.1 = true) ∧
+      (match eb with | .unbounded => True | .included k => klt k e.1 = false | .excluded k => klt e.1 k = true) :=
+  Blue.Spec.inRange_iff klt sb eb e
+
+/-- … and the bridge to the two key tests the bounds-cursor model performs -/
+theorem in_range_is_bounds_cursor_tests {K : Type} [DecidableEq K] (klt : K → K → Bool)
+    (sb eb : Blue.Spec.Bound K) (e : Blue.Spec.Ver K) :
+    Blue.Spec.inRange klt sb eb e
+      = (!(Blue.Spec.bcfg klt sb eb).belowStart e && !(Blue.Spec.bcfg klt sb eb).aboveEnd e) :=
+  Blue.Spec.inRange_eq_cfg klt sb eb e
 
 /-! ## pruning -/
 
@@ -360,9 +466,70 @@ example : ∃ lo hi, BoundsOk (Blue.Spec.bcfg natLt (.excluded 2) (.included 4))
   ⟨_, _, bounds_hypothesis_of_sorted natLt_strictTotal (.excluded 2) (.included 4) _
       (Blue.Spec.keysMono_of_sorted natLt_strictTotal (by unfold Blue.Spec.Sorted; decide)), by decide, by decide⟩
 
-/-- the state `new` leaves is related to position 0 (`BRel`), so `bounds_refines` starts there -/
+/-- the state `new` STARTS from (before its `seek_to_first`) is related to position 0 (`BRel`) -/
 example (xs : List Nat) (lo hi : Nat) : BRel xs lo hi ⟨⟨xs, 0⟩, .beforeStart⟩ 0 :=
   BRel.before 0 (by omega) (by omega)
+
+/-! end-to-end instances: all hypotheses of `bounds_refines(_new)` / `pruning_refines` jointly, on a
+    seven-entry table with several versions per key, a program with a `seek(4)` and reversals -/
+
+def tbl : List (Blue.Spec.Ver Nat) := [(1, 7), (2, 9), (2, 3), (3, 1), (4, 5), (4, 2), (6, 0)]
+theorem tbl_sorted : Blue.Spec.Sorted natLt tbl := by unfold Blue.Spec.Sorted; decide
+def prog : List (Op (Blue.Spec.Ver Nat)) :=
+  [.next, .next, .prev, .seek (Blue.Spec.geKey natLt 4), .prev, .next, .next, .next, .prev, .last, .prev, .first, .next]
+
+theorem prog_seeks (pred : Blue.Spec.Ver Nat → Bool) (hp : Op.seek pred ∈ prog) : pred = Blue.Spec.geKey natLt 4 := by
+  simp only [prog, List.mem_cons, List.not_mem_nil, or_false, reduceCtorEq, false_or, Op.seek.injEq] at hp
+  exact hp
+
+/-- bounds `(2, 4]`: the cursor made by `new` runs as the reference cursor over the interval, which
+    is `[3@1, 4@5, 4@2]` -/
+example : Bounds.run (Blue.Spec.bcfg natLt (.excluded 2) (.included 4)) 9
+      (Bounds.new (Blue.Spec.bcfg natLt (.excluded 2) (.included 4)) ⟨tbl, 0⟩) prog
+    = Ref.run ⟨[(3, 1), (4, 5), (4, 2)], 0⟩ prog := by
+  have km := Blue.Spec.keysMono_of_sorted natLt_strictTotal tbl_sorted
+  have h := bounds_refines_new (Blue.Spec.bcfg natLt (.excluded 2) (.included 4)) tbl
+    (bounds_hypothesis_of_sorted natLt_strictTotal (.excluded 2) (.included 4) tbl km) 9 (by decide) prog
+    (by intro pred hp; rw [prog_seeks pred hp]; exact seek_key_monoAlong natLt_strictTotal 4 tbl km)
+  rw [h, bounds_window_is_interval natLt_strictTotal (.excluded 2) (.included 4) tbl km]
+  rfl
+
+/-- pruning at `t = 4`, versions with timestamp 3 are tombstones: the cursor runs as the reference
+    cursor over `[3@1, 4@2, 6@0]` (key 1 too new, key 2 deleted) and never takes its error exit -/
+example : Pruning.run (Blue.Spec.pcfg 4 (fun e => e.2 == 3)) 9 (Pruning.new ⟨tbl, 0⟩) prog
+    = some (Ref.run ⟨[(3, 1), (4, 2), (6, 0)], 0⟩ prog) := by
+  have km := Blue.Spec.keysMono_of_sorted natLt_strictTotal tbl_sorted
+  have h := pruning_refines (Blue.Spec.pcfg 4 (fun e => e.2 == 3)) tbl
+    (pruning_hypothesis_of_sorted natLt_strictTotal tbl_sorted 4 _) 9 (by decide) prog
+    (Pruning.new ⟨tbl, 0⟩) 0 (prel_new _ tbl ⟨tbl, 0⟩ rfl)
+    (by intro pred hp; rw [prog_seeks pred hp]; exact seek_key_seekPred natLt_strictTotal 4 4 _ tbl km)
+  rw [h, pruned_is_newest_visible natLt_strictTotal tbl_sorted]
+  rfl
+
+/-- `merging_over_dups` with children that are NOT reference cursors: lazy cursors (over reference
+    cursors), the substitution hypothesis discharged by `lazy_over` -/
+def lz (xs : List Nat) : (LazyC.cur (RefCur Nat)).σ := ⟨⟨xs, 0⟩, .first⟩
+theorem lz_beh (xs : List Nat) :
+    behA (Mono natLt) (LazyC.cur (RefCur Nat)) (lz xs) = behA (Mono natLt) (RefCur Nat) ⟨xs, 0⟩ :=
+  behA_eq_of_behEq (lazy_over xs (fun _ _ => rfl))
+
+example : BehEq (Mono natLt) (MergingC.cur (LazyC.cur (RefCur Nat)) natLt)
+    (MergingC.new (LazyC.cur (RefCur Nat)) natLt [lz [1, 4], lz [1, 2, 4, 5], lz [4]])
+    (RefCur Nat) ⟨demoMW.map (·.1), 0⟩ :=
+  merging_over_dups natLt natLt_strictTotal demo_familyW (fun _ h => h)
+    [lz [1, 4], lz [1, 2, 4, 5], lz [4]] [⟨[1, 4], 0⟩, ⟨[1, 2, 4, 5], 0⟩, ⟨[4], 0⟩] (by decide)
+    (by show [_, _, _] = [_, _, _]; rw [lz_beh, lz_beh, lz_beh])
+
+/-- `exists_familyW` / `merging_refines_tables` on the same children, no `M` supplied: the constructed
+    merged list is the sorted union with multiplicity -/
+example : mergedList natLt [[1, 4], [1, 2, 4, 5], [4]] = [1, 1, 2, 4, 4, 4, 5] := by
+  simp [mergedList, mergedOf, tagFrom, leOf, natLt, List.mergeSort, List.MergeSort.Internal.splitInTwo, List.merge]
+
+example (ops : List (Op Nat)) (hops : ∀ pred, Op.seek pred ∈ ops → Mono natLt pred) :
+    Merging.run natLt (Merging.new natLt [⟨[1, 4], 0⟩, ⟨[1, 2, 4, 5], 0⟩, ⟨[4], 0⟩]) ops
+      = Ref.run ⟨mergedList natLt [[1, 4], [1, 2, 4, 5], [4]], 0⟩ ops :=
+  (merging_refines_tables natLt_strictTotal [⟨[1, 4], 0⟩, ⟨[1, 2, 4, 5], 0⟩, ⟨[4], 0⟩]
+    (by decide) ops hops).2
 
 /-- `Grouped` and `PRel` are met by a sorted table with several versions per key and tombstones -/
 example : Grouped (Blue.Spec.pcfg 4 (fun e => e.2 == 3))
@@ -384,10 +551,23 @@ end Blue.Props.C11
 #print axioms Blue.Props.C11.merging_over_dups
 #print axioms Blue.Props.C11.merged_with_multiplicity
 #print axioms Blue.Props.C11.family_is_familyW
+#print axioms Blue.Props.C11.exists_familyW
+#print axioms Blue.Props.C11.exists_family
+#print axioms Blue.Props.C11.merging_refines_tables
+#print axioms Blue.Props.C11.mergedList_is_sorted_union
+#print axioms Blue.Props.C11.merging_over_tables
+#print axioms Blue.Props.C11.seek_key_mono
+#print axioms Blue.Props.C11.seek_key_predMono
+#print axioms Blue.Props.C11.seek_key_monoAlong
+#print axioms Blue.Props.C11.seek_key_seekPred
 #print axioms Blue.Props.C11.concat_refines
 #print axioms Blue.Props.C11.concat_subst
 #print axioms Blue.Props.C11.concat_over
 #print axioms Blue.Props.C11.bounds_refines
+#print axioms Blue.Props.C11.bounds_new_related
+#print axioms Blue.Props.C11.bounds_refines_new
+#print axioms Blue.Props.C11.in_range_is_the_interval
+#print axioms Blue.Props.C11.in_range_is_bounds_cursor_tests
 #print axioms Blue.Props.C11.bounds_subst
 #print axioms Blue.Props.C11.bounds_over
 #print axioms Blue.Props.C11.bounds_hypothesis_of_sorted
